@@ -1,14 +1,14 @@
 /-
 C09 — Accepted programs are well-formed: no silent numeric wrap-around.
 
-Property theorems only. Model: M-Compile (`gather`, `castInt`, the stateful linker).
-The pinned compiler violates the property at four places (D6–D9); the model reproduces
-them, so for each clause this file holds (a) the theorem under exactly the hypothesis that
-excludes the defect (`…_partial`: what is missing is the range check the code does not
-perform) and (b) the negation, proved by evaluating the model on the witness input.
+Property theorems only. Model: M-Compile (`gather`, `castInt`, the stateful linker), following
+the repaired compiler: the bounds checks for field identifiers (both ends), enum values and
+integer constants, and the in-progress detection for constants and services are in place
+(findings D5–D9, repaired). Every clause is proved at full strength; the former failing
+inputs are regression witnesses: each is rejected, for every fuel.
 -/
 import ThriftVerif.Compile.GatherProofs
-import ThriftVerif.Compile.Witness
+import ThriftVerif.Compile.RepairedProofs
 
 namespace ThriftVerif.Properties.C09
 open ThriftVerif.Compile
@@ -52,18 +52,14 @@ theorem compiled_module {fuel : Nat} {o : Orders} {src : Program} {c : Compiled}
 theorem structOpts_allowNeg (strict : Bool) (k : SKind) : (structOpts strict k).allowNeg = !strict := by
   cases k <;> rfl
 
-/-- **Field identifiers are exact (partial: hypothesis `hlow`).** In every successfully
-compiled program, every field of every struct/union/exception of a reachable file carries
-the identifier the source designates (explicit, or the next auto-assigned negative one in
-non-strict mode), that identifier lies in the int16 range, and identifiers and names are
-unique within the struct — provided no designated identifier is below −32768. The code
-lacks that lower-bound check in non-strict mode (D8, `field_wrap`); with the check the
-hypothesis disappears. -/
-theorem field_id_exact_partial {fuel : Nat} {o : Orders} {src : Program} {c : Compiled} {i : Nat}
+/-- **Field identifiers are exact.** In every successfully compiled program, every field of
+every struct/union/exception of a reachable file carries the identifier the source designates
+(explicit, or the next auto-assigned negative one in non-strict mode), that identifier lies
+in the int16 range, and identifiers and names are unique within the struct. -/
+theorem field_id_exact {fuel : Nat} {o : Orders} {src : Program} {c : Compiled} {i : Nat}
     {incs : List Include} {defs : List Def} {k : SKind} {n : Name} {fields : List Field}
     (hc : compile fuel o src = .ok c) (hr : i ∈ reachable src)
-    (hf : src.files.getD i .bad = .ok incs defs) (hd : Def.struct k n fields ∈ defs)
-    (hlow : ∀ s ∈ srcIds (!src.strict) (-1) fields, -32768 ≤ s) :
+    (hf : src.files.getD i .bad = .ok incs defs) (hd : Def.struct k n fields ∈ defs) :
     ∃ gs, lookupType c.prog i n = some (.struct k gs) ∧
       gs.map (·.id) = srcIds (!src.strict) (-1) fields ∧ (∀ g ∈ gs, inRange 16 g.id) ∧
       (gs.map (·.id)).Nodup ∧ (gs.map (·.name)).Nodup := by
@@ -71,14 +67,12 @@ theorem field_id_exact_partial {fuel : Nat} {o : Orders} {src : Program} {c : Co
   rw [hf] at hm
   obtain ⟨gs, hgs, hl⟩ := (gatherFile_lookup _ _ _ _ hm).1 k n fields hd
   have ha := structOpts_allowNeg src.strict k
-  obtain ⟨h1, h2⟩ := compileFields_ids_exact _ fields gs hgs (by rw [ha]; exact hlow)
+  obtain ⟨h1, h2⟩ := compileFields_ids_exact _ fields gs hgs
   obtain ⟨h3, h4⟩ := compileFields_nodup _ fields gs hgs
   rw [ha] at h1
   exact ⟨gs, hl, h1, h2, h3, h4⟩
 
-/-- **Field identifiers are exact in strict mode (no hypothesis).** There the code's own check
-(`src.ID < 1 || src.ID > math.MaxInt16`) suffices: identifiers equal the source's and lie in
-1..32767. -/
+/-- **In strict mode field identifiers lie in 1..32767.** -/
 theorem field_id_exact_strict {fuel : Nat} {o : Orders} {src : Program} {c : Compiled} {i : Nat}
     {incs : List Include} {defs : List Def} {k : SKind} {n : Name} {fields : List Field}
     (hs : src.strict = true)
@@ -93,84 +87,66 @@ theorem field_id_exact_strict {fuel : Nat} {o : Orders} {src : Program} {c : Com
   obtain ⟨h1, h2⟩ := compileFields_ids_exact_strict _ fields gs ha hgs
   exact ⟨gs, hl, h1, h2⟩
 
-/-- **Negation on the pinned tree (D8).** Non-strict `struct S {-40000: optional i32 x}` is
-accepted and the field gets identifier 25536. -/
-theorem field_wrap : ∃ c, compile 100 [] progD8 = .ok c ∧ fieldIdsOf c 0 (nm "S") = some [25536] ∧
-    srcIds (!progD8.strict) (-1) [⟨some (-40000), nm "x", .optional, .base 0 .i32, none⟩] = [-40000] := by
-  have h : ((compile 100 [] progD8).toOption.map fun c => fieldIdsOf c 0 (nm "S")) = some (some [25536]) := by decide +kernel
-  cases hc : compile 100 [] progD8 with
-  | ok c => simp [hc, Res.toOption] at h; exact ⟨c, rfl, h, by decide⟩
-  | err => simp [hc, Res.toOption] at h
-  | fuel => simp [hc, Res.toOption] at h
+/-- **Regression witness (D8, repaired).** Non-strict `struct S {-40000: optional i32 x}`, which
+used to compile to field id 25536, is rejected. -/
+theorem field_wrap_rejected :
+    (∀ fuel, 30 ≤ fuel → compile fuel [] progD8 = .err) ∧ (∀ fuel, (compile fuel [] progD8).isOk = false) :=
+  rejected_of_err err_D8
 
-/-- **Enum values are exact (partial: hypothesis `hfit`).** Item values equal the source's
-(explicit, or previous + 1 starting at 0) and item names are unique case-insensitively —
-provided every designated value lies in the int32 range. The code converts with `int32(value)`
-at its `TODO bounds check for value` (D7, `enum_wrap`). -/
-theorem enum_value_exact_partial {fuel : Nat} {o : Orders} {src : Program} {c : Compiled} {i : Nat}
+/-- **Enum values are exact.** Item values equal the source's (explicit, or previous + 1
+starting at 0), lie in the int32 range, and item names are unique case-insensitively. -/
+theorem enum_value_exact {fuel : Nat} {o : Orders} {src : Program} {c : Compiled} {i : Nat}
     {incs : List Include} {defs : List Def} {n : Name} {items : List (Name × Option Int)}
     (hc : compile fuel o src = .ok c) (hr : i ∈ reachable src)
-    (hf : src.files.getD i .bad = .ok incs defs) (hd : Def.enum n items ∈ defs)
-    (hfit : ∀ v ∈ srcEnumValues (-1) items, inRange 32 v) :
+    (hf : src.files.getD i .bad = .ok incs defs) (hd : Def.enum n items ∈ defs) :
     ∃ is, lookupType c.prog i n = some (.enum is) ∧
       is.map (·.2) = srcEnumValues (-1) items ∧ is.map (·.1) = items.map (·.1) ∧
+      (∀ v ∈ is.map (·.2), inRange 32 v) ∧
       (is.map (fun it => toLower it.1)).Nodup := by
   have hm := compiled_module hc hr
   rw [hf] at hm
   obtain ⟨is, his, hl⟩ := (gatherFile_lookup _ _ _ _ hm).2 n items hd
-  obtain ⟨h1, h2⟩ := compileEnum_values_exact items is his hfit
-  exact ⟨is, hl, h1, h2, compileEnum_names_nodup items is his⟩
+  obtain ⟨h1, h2, h3⟩ := compileEnum_values_exact items is his
+  exact ⟨is, hl, h1, h2, by rw [h1]; exact h3, compileEnum_names_nodup items is his⟩
 
-/-- **Negation on the pinned tree (D7).** `enum E {A = 4294967296}` is accepted with `A = 0`. -/
-theorem enum_wrap : ∃ c, compile 100 [] progD7 = .ok c ∧ enumItemsOf c 0 (nm "E") = some [(nm "A", 0)] := by
-  have h : ((compile 100 [] progD7).toOption.map fun c => enumItemsOf c 0 (nm "E")) = some (some [(nm "A", 0)]) := by decide +kernel
-  cases hc : compile 100 [] progD7 with
-  | ok c => simp [hc, Res.toOption] at h; exact ⟨c, rfl, h⟩
-  | err => simp [hc, Res.toOption] at h
-  | fuel => simp [hc, Res.toOption] at h
+/-- **Regression witness (D7, repaired).** `enum E {A = 4294967296}`, which used to compile to
+`A = 0`, is rejected. -/
+theorem enum_wrap_rejected :
+    (∀ fuel, 30 ≤ fuel → compile fuel [] progD7 = .err) ∧ (∀ fuel, (compile fuel [] progD7).isOk = false) :=
+  rejected_of_err err_D7
 
-/-- **Integer constants are exact.** Linking an integer literal at a type whose root is an
-integer type returns that very literal and changes nothing else: no truncation, whatever
-the literal (`ConstantInt.Link` converts nothing for i8…i64). -/
-theorem const_int_exact {fuel : Nat} {p : GProg} {m : Nat} {n : Int} {t : LType} {σ σ' : St} {v : CV}
+/-- **Integer constants are exact and in range.** Linking an integer literal at a type whose
+root is an integer type of `bits` bits succeeds only if the literal lies in that type's range,
+returns that very literal, and changes nothing else — for constants, defaults, and elements of
+list/set/map/struct literals alike (they all go through `linkVal`). -/
+theorem const_in_range {fuel : Nat} {p : GProg} {m : Nat} {n : Int} {t : LType} {σ σ' : St} {v : CV}
     {bits : Nat} (hk : rootKind p (rootIn p σ t) = .int bits)
-    (h : linkVal fuel p m (.int n) t σ = .ok (σ', v)) : v = .int n ∧ σ' = σ := by
+    (h : linkVal fuel p m (.int n) t σ = .ok (σ', v)) : v = .int n ∧ inRange bits n ∧ σ' = σ := by
   cases fuel with
   | zero => simp [linkVal] at h
   | succ f =>
     simp only [linkVal, hk, castInt] at h
-    cases h
-    exact ⟨rfl, rfl⟩
+    by_cases hr : inRange bits n
+    · simp only [hr, if_true] at h
+      cases h
+      exact ⟨rfl, hr, rfl⟩
+    · simp only [hr, if_false] at h
+      cases h
 
-/-- **Integer constants lie in the range of their type (partial: hypothesis `hfit`).**
-Exactness is unconditional (`const_int_exact`); that the value fits the declared type holds
-exactly when the literal does — the code performs no range check (`TODO bounds checks?`,
-D9, `i8_unchecked`), so out-of-range literals are accepted unchanged instead of rejected. -/
-theorem const_in_range_partial {fuel : Nat} {p : GProg} {m : Nat} {n : Int} {t : LType} {σ σ' : St} {v : CV}
-    {bits : Nat} (hk : rootKind p (rootIn p σ t) = .int bits) (hfit : inRange bits n)
-    (h : linkVal fuel p m (.int n) t σ = .ok (σ', v)) : ∃ x, v = .int x ∧ x = n ∧ inRange bits x :=
-  ⟨n, (const_int_exact hk h).1, rfl, hfit⟩
+/-- **Regression witness (D9, repaired).** `const i8 x = 1000` is rejected. -/
+theorem i8_out_of_range_rejected :
+    (∀ fuel, 30 ≤ fuel → compile fuel [] progD9 = .err) ∧ (∀ fuel, (compile fuel [] progD9).isOk = false) ∧
+    ¬ inRange 8 1000 :=
+  ⟨(rejected_of_err err_D9).1, (rejected_of_err err_D9).2, by decide⟩
 
-/-- **Negation on the pinned tree (D9).** `const i8 x = 1000` is accepted; the linked value is 1000. -/
-theorem i8_unchecked : ∃ c, compile 100 [] progD9 = .ok c ∧ constIntOf c 0 (nm "x") = some 1000 ∧
-    ¬ inRange 8 1000 := by
-  have h : ((compile 100 [] progD9).toOption.map fun c => constIntOf c 0 (nm "x")) = some (some 1000) := by decide +kernel
-  cases hc : compile 100 [] progD9 with
-  | ok c => simp [hc, Res.toOption] at h; exact ⟨c, rfl, h, by decide⟩
-  | err => simp [hc, Res.toOption] at h
-  | fuel => simp [hc, Res.toOption] at h
-
-/-- **Enum-typed integer constants are exact (partial: hypothesis `hfit`).** An integer used
-at an enum type denotes the item with exactly that value — provided the integer lies in the
-int32 range; the code compares with `int32(c)` (`enum_cast_wraps`). -/
-theorem enum_const_exact_partial {em : Nat} {en item : Name} {items : List (Name × Int)} {n v : Int}
-    (hfit : inRange 32 n)
+/-- **Enum-typed integer constants are exact.** An integer used at an enum type denotes the item
+with exactly that value (no comparison modulo 2^32). -/
+theorem enum_const_exact {em : Nat} {en item : Name} {items : List (Name × Int)} {n v : Int}
     (h : castInt (.enum em en items) n = some (.eref em en item v)) : v = n := by
   unfold castInt at h
   simp only at h
   split at h
   · rename_i it x hfind
-    rw [wrap32_of_inRange hfit] at hfind
     have hv : x = v := by cases h; rfl
     subst hv
     have : ∀ (l : List (Name × Int)), findItemByValue n l = some (it, x) → x = n := by
@@ -187,14 +163,12 @@ theorem enum_const_exact_partial {em : Nat} {en item : Name} {items : List (Name
     exact this items hfind
   · cases h
 
-/-- **Negation on the pinned tree (D9, enum lookup).** `enum E {A = 1}  const E x = 4294967297`
-is accepted as the item `A = 1`. -/
-theorem enum_cast_wraps : ∃ c, compile 100 [] progD9enum = .ok c ∧ constIsItem c 0 (nm "x") (nm "A") 1 = true := by
-  have h : ((compile 100 [] progD9enum).toOption.map fun c => constIsItem c 0 (nm "x") (nm "A") 1) = some true := by decide +kernel
-  cases hc : compile 100 [] progD9enum with
-  | ok c => simp [hc, Res.toOption] at h; exact ⟨c, rfl, h⟩
-  | err => simp [hc, Res.toOption] at h
-  | fuel => simp [hc, Res.toOption] at h
+/-- **Regression witness (D9, enum lookup, repaired).** `enum E {A = 1}  const E x = 4294967297`
+is rejected. -/
+theorem enum_cast_wrap_rejected :
+    (∀ fuel, 30 ≤ fuel → compile fuel [] progD9enum = .err) ∧
+    (∀ fuel, (compile fuel [] progD9enum).isOk = false) :=
+  rejected_of_err err_D9enum
 
 /-- **Function names are unique within a service, case-insensitively** (every accepted
 service went through `gatherFuncs`). -/
@@ -202,23 +176,23 @@ theorem function_names_unique (fs : List Func) (gs : List GFunc) (h : gatherFunc
     (gs.map (fun g => toLower g.name)).Nodup :=
   (gatherFuncs_nodup fs [] gs h).1
 
-/-- **Negation on the pinned tree (D6): a constant defined as itself is accepted.**
-`const i32 a = a` compiles; the linked value of `a` is a reference to `a`. -/
-theorem self_const_accepted : ∃ c, compile 100 [] progD6 = .ok c ∧ constIsRefTo c 0 (nm "a") (nm "a") = true := by
-  have h : ((compile 100 [] progD6).toOption.map fun c => constIsRefTo c 0 (nm "a") (nm "a")) = some true := by decide +kernel
-  cases hc : compile 100 [] progD6 with
-  | ok c => simp [hc, Res.toOption] at h; exact ⟨c, rfl, h⟩
-  | err => simp [hc, Res.toOption] at h
-  | fuel => simp [hc, Res.toOption] at h
+/-- **Regression witnesses (D6, D4, repaired): no constant is defined in terms of itself.**
+`const i32 a = a`, `const list<i32> c = c`, a constant that contains itself through a struct
+default, and cycles of two constants (over anonymous and over named types) are rejected.
+*Witnesses only*: the general statement (no accepted program has a constant whose value
+leads back to itself) is not proved; the harness plants such cycles in its main streams. -/
+theorem self_const_rejected :
+    (∀ fuel, (compile fuel [] progD6).isOk = false) ∧ (∀ fuel, (compile fuel [] progD6list).isOk = false) ∧
+    (∀ fuel, (compile fuel [] progD6default).isOk = false) ∧ (∀ fuel, (compile fuel [] progD4).isOk = false) ∧
+    (∀ fuel, (compile fuel [] progD4named).isOk = false) :=
+  ⟨(rejected_of_err err_D6).2, (rejected_of_err err_D6list).2, (rejected_of_err err_D6default).2,
+   (rejected_of_err err_D4).2, (rejected_of_err err_D4named).2⟩
 
-/-- **Negation on the pinned tree (D5, length 1): a service that extends itself is accepted.** -/
-theorem self_service_accepted : ∃ c, compile 100 [] progD5self = .ok c ∧
-    alookup (0, nm "A") c.st.vpar = some (0, nm "A") := by
-  have h : ((compile 100 [] progD5self).toOption.map fun c => alookup (0, nm "A") c.st.vpar) = some (some (0, nm "A")) := by decide +kernel
-  cases hc : compile 100 [] progD5self with
-  | ok c => simp [hc, Res.toOption] at h; exact ⟨c, rfl, h⟩
-  | err => simp [hc, Res.toOption] at h
-  | fuel => simp [hc, Res.toOption] at h
+/-- **Regression witnesses (D5, repaired): no service inherits from itself.** `service A extends A {}`
+and `service A extends B {}  service B extends A {}` are rejected. *Witnesses only*, as above. -/
+theorem self_service_rejected :
+    (∀ fuel, (compile fuel [] progD5self).isOk = false) ∧ (∀ fuel, (compile fuel [] progD5).isOk = false) :=
+  ⟨(rejected_of_err err_D5self).2, (rejected_of_err err_D5).2⟩
 
 /-! Non-vacuity: a program to which the exactness theorems apply with all hypotheses true
 (auto-assigned negative identifiers, implicit enum values, boundary constants). -/
